@@ -3,6 +3,7 @@ C11 — generics, lifetimes and where-clauses are carried so the impl type-check
 What a theorem can carry is the construction of the header; "type-checks" is rustc's judgement (modelled not verified).
 -/
 import O2oModel.Expand
+import O2oModel.Lemmas.TokEq
 namespace O2o
 
 /-- the deriving type's own parameters -/
@@ -99,5 +100,182 @@ theorem C11_counterpart_split_noargs (pth : Path) (h : (pth.segs.getLast?.bind (
       cases args with
       | none => simp
       | some g => simp [hl] at h
+
+/-- what a declared parameter *is*, its trailing comma aside -/
+def IParam.key (p : IParam) : Bool × TS × TS := (p.isLifetime, p.name, p.full)
+
+theorem keys_pushParam (ps : List IParam) (x : IParam) : (pushParam ps x).map IParam.key = ps.map IParam.key ++ [x.key] := by
+  unfold pushParam
+  cases h : ps.reverse with
+  | nil =>
+    have : ps = [] := by simpa using h
+    simp [this]
+  | cons last init =>
+    have : ps = init.reverse ++ [last] := by
+      have := congrArg List.reverse h
+      simpa using this
+    simp [this, IParam.key]
+
+/-- the lifetimes declared by a parameter list -/
+def ltNames (ps : List IParam) : List TS := (ps.filter (·.isLifetime)).map (·.name)
+
+theorem ltNames_eq (ps : List IParam) : ltNames ps = (ps.map IParam.key).filterMap (fun k => if k.1 then some k.2.1 else none) := by
+  induction ps with
+  | nil => rfl
+  | cons p ps ih =>
+    simp only [ltNames, List.filter_cons, List.map_cons, List.filterMap_cons, IParam.key] at *
+    cases h : p.isLifetime <;> simp [ih]
+
+theorem ltNames_pushParam (ps : List IParam) (x : IParam) (hx : x.isLifetime = true) : ltNames (pushParam ps x) = ltNames ps ++ [x.name] := by
+  rw [ltNames_eq, ltNames_eq, keys_pushParam]
+  simp [IParam.key, hx]
+
+theorem missing_false_mem (ps : List IParam) (lt : TS)
+    (h : (ps.all fun prm => if prm.isLifetime then !(prm.name == lt) else true) = false) : lt ∈ ltNames ps := by
+  induction ps with
+  | nil => simp at h
+  | cons p ps ih =>
+    simp only [List.all_cons, Bool.and_eq_false_iff] at h
+    simp only [ltNames, List.filter_cons]
+    cases hp : p.isLifetime with
+    | true =>
+      simp only [hp, if_true] at h
+      cases h with
+      | inl h =>
+        have : p.name = lt := eq_of_beq (by simpa using h)
+        simp [this]
+      | inr h => simp only [if_true, List.map_cons, List.mem_cons]; exact Or.inr (ih h)
+    | false =>
+      simp only [hp] at h
+      cases h with
+      | inl h => simp at h
+      | inr h => simpa [ltNames] using ih h
+
+theorem missing_true_not_mem (ps : List IParam) (lt : TS)
+    (h : (ps.all fun prm => if prm.isLifetime then !(prm.name == lt) else true) = true) : lt ∉ ltNames ps := by
+  induction ps with
+  | nil => simp [ltNames]
+  | cons p ps ih =>
+    simp only [List.all_cons, Bool.and_eq_true] at h
+    simp only [ltNames, List.filter_cons]
+    cases hp : p.isLifetime with
+    | true =>
+      simp only [hp, if_true] at h
+      have hne : p.name ≠ lt := ne_of_beq_false (by simpa using h.1)
+      simp only [if_true, List.map_cons, List.mem_cons, not_or]
+      exact ⟨fun e => hne e.symm, ih h.2⟩
+    | false => simpa [ltNames] using ih h.2
+
+/-- one round of the `missing_lt` loop -/
+def missingStep (ps : List IParam) (lt : TS) : List IParam :=
+  let missing := ps.all fun prm => if prm.isLifetime then !(prm.name == lt) else true
+  if missing then pushParam ps { isLifetime := true, name := lt, full := lt, punct := false } else ps
+
+theorem withMissing_eq (ps : List IParam) (lts : List TS) : withMissingLifetimes ps lts = lts.foldl missingStep ps := rfl
+
+theorem step_declares (ps : List IParam) (lt : TS) : lt ∈ ltNames (missingStep ps lt) := by
+  unfold missingStep
+  simp only
+  split
+  · rw [ltNames_pushParam _ _ rfl]; simp
+  · rename_i h; exact missing_false_mem ps lt (by simpa using h)
+
+theorem step_keeps (ps : List IParam) (lt x : TS) (hx : x ∈ ltNames ps) : x ∈ ltNames (missingStep ps lt) := by
+  unfold missingStep
+  simp only
+  split
+  · rw [ltNames_pushParam _ _ rfl]; simp [hx]
+  · exact hx
+
+theorem step_nodup (ps : List IParam) (lt : TS) (h : (ltNames ps).Nodup) : (ltNames (missingStep ps lt)).Nodup := by
+  unfold missingStep
+  simp only
+  split
+  · rename_i hm
+    rw [ltNames_pushParam _ _ rfl]
+    have := missing_true_not_mem ps lt hm
+    exact List.nodup_append.mpr ⟨h, by simp, by intro a ha b hb; simp at hb; subst hb; intro e; exact this (e ▸ ha)⟩
+  · exact h
+
+/-- C11-3 (every lifetime of the counterpart is declared): after the `missing_lt` loop each lifetime argument of the
+    counterpart path is among the lifetimes the impl declares — for any parameter list of the deriving type (lifetimes,
+    type and const parameters in any order) and any list of counterpart lifetimes, repetitions included -/
+theorem C11_every_counterpart_lifetime_declared (ps : List IParam) (lts : List TS) (lt : TS) (h : lt ∈ lts) :
+    lt ∈ ltNames (withMissingLifetimes ps lts) := by
+  rw [withMissing_eq]
+  induction lts generalizing ps with
+  | nil => cases h
+  | cons l ls ih =>
+    simp only [List.foldl_cons]
+    cases h with
+    | head =>
+      have h0 := step_declares ps lt
+      generalize missingStep ps lt = ps' at h0
+      clear ih
+      induction ls generalizing ps' with
+      | nil => exact h0
+      | cons l2 ls2 ih2 => exact ih2 _ (step_keeps ps' l2 lt h0)
+    | tail _ h' => exact ih _ h'
+
+/-- C11-3 (… and none twice): if the deriving type declares no lifetime twice, neither does the impl — a lifetime the
+    counterpart shares with the type, or names several times, is not declared again -/
+theorem C11_no_lifetime_declared_twice (ps : List IParam) (lts : List TS) (h : (ltNames ps).Nodup) :
+    (ltNames (withMissingLifetimes ps lts)).Nodup := by
+  rw [withMissing_eq]
+  induction lts generalizing ps with
+  | nil => exact h
+  | cons l ls ih => exact ih _ (step_nodup ps l h)
+
+/-- the deriving type's own parameters stay first, in order and unchanged (only a separating comma may be added) -/
+theorem C11_own_params_first (ps : List IParam) (lts : List TS) :
+    ∃ extra, (withMissingLifetimes ps lts).map IParam.key = ps.map IParam.key ++ extra := by
+  rw [withMissing_eq]
+  induction lts generalizing ps with
+  | nil => exact ⟨[], by simp⟩
+  | cons l ls ih =>
+    obtain ⟨e, he⟩ := ih (missingStep ps l)
+    simp only [List.foldl_cons]
+    unfold missingStep at he ⊢
+    simp only at he ⊢
+    split at he
+    · rename_i hm
+      simp only [hm, if_true]
+      rw [keys_pushParam] at he
+      exact ⟨_, by rw [he, List.append_assoc]⟩
+    · rename_i hm
+      simp only [hm]
+      exact ⟨e, he⟩
+
+
+/-- C11-3 on the impl header itself: every lifetime argument of the counterpart is declared by `impl<..>` -/
+theorem C11_impl_declares_counterpart_lifetimes (input : DataType) (ctx : ImplContext) (lt : TS)
+    (h : lt ∈ thoseLifetimes ctx.structAttr.ty) : lt ∈ ltNames (implParams input ctx) := by
+  unfold implParams
+  simp only
+  have h1 := C11_every_counterpart_lifetime_declared (declaredParams input.generics) _ lt h
+  split
+  · rw [ltNames_pushParam _ _ rfl]; exact List.mem_append_left _ h1
+  · exact h1
+
+/-- … and, as long as the input itself does not use the reserved name `'o2o`, no lifetime twice -/
+theorem C11_impl_declares_no_lifetime_twice (input : DataType) (ctx : ImplContext)
+    (h : (ltNames (declaredParams input.generics)).Nodup)
+    (hres : lifetimeTS "o2o" ∉ ltNames (withMissingLifetimes (declaredParams input.generics) (thoseLifetimes ctx.structAttr.ty))) :
+    (ltNames (implParams input ctx)).Nodup := by
+  unfold implParams
+  simp only
+  have h1 := C11_no_lifetime_declared_twice (declaredParams input.generics) (thoseLifetimes ctx.structAttr.ty) h
+  split
+  · rw [ltNames_pushParam _ _ rfl]
+    exact List.nodup_append.mpr ⟨h1, by simp, by
+      intro a ha b hb; simp at hb; subst hb; intro e
+      have e' : a = lifetimeTS "o2o" := e
+      exact hres (e' ▸ ha)⟩
+  · exact h1
+
+/-- non-vacuity: `struct S<'a, T>` against `A<'b, 'a, 'b>` — `'b` is added once, `'a` not again -/
+example : ltNames (withMissingLifetimes
+      [{ isLifetime := true, name := lifetimeTS "a", full := lifetimeTS "a", punct := true }, { isLifetime := false, name := [], full := [Tok.ident "T"], punct := false }]
+      [lifetimeTS "b", lifetimeTS "a", lifetimeTS "b"]) = [lifetimeTS "a", lifetimeTS "b"] := by decide
 
 end O2o
